@@ -252,7 +252,20 @@ func runC06(r *simkit.Run) {
 		// post-signing single-field change of the message
 		changed := ""
 		if c.Chance(200, "post-change") {
-			switch c.Intn(4, "post-field") {
+			switch c.Intn(5, "post-field") {
+			case 4:
+				// the last identity grows or shrinks by one byte (with the valid key of the new
+				// identity): it no longer fits the signed container, nothing can be signed over it
+				last := km.Keys[len(km.Keys)-1]
+				id := append([]byte{}, last.IdentityPreimage...)
+				if c.Bool("identity-shrinks") {
+					id = id[:len(id)-1]
+				} else {
+					id = append(id, 0x00)
+				}
+				k, _ := w.keys.EpochSecretKey(identitypreimage.IdentityPreimage(id))
+				km.Keys[len(km.Keys)-1] = &p2pmsg.Key{IdentityPreimage: id, Key: k.Marshal()}
+				changed = "identity-length"
 			case 0:
 				if w.fl == flGnosis {
 					km.Extra.(*p2pmsg.DecryptionKeys_Gnosis).Gnosis.Slot++
